@@ -35,8 +35,6 @@ class C23(Prop):
       if mod and n >= 2:
         # different state functions may carry the same __name__ (one builder called twice)
         case["spec"] = dict(case["spec"], names=["vs%d" % (i % mod) for i in range(n)])
-      if host == "ao_anonymous":
-        case["spec"] = dict(case["spec"], spy=True)      # an unnamed object needs a decorated start state
       return case
     return st.tuples(base, hosts, st.sampled_from([0, 0, 0, 1, 2, 3])).map(finish)
 
